@@ -98,6 +98,13 @@ func (mpf Transform[T, O]) ProcessParallel(
 			// for each split, run a mapWorker
 
 			mf.mapPullProcess(output.Send().Write, opts).
+				WithErrorFilter(func(err error) error {
+					// the processor only returns io.EOF
+					// to abort (never for the end of the
+					// input): stop the other workers too.
+					ft.WhenCall(err != nil && errors.Is(err, io.EOF), wcancel)
+					return err
+				}).
 				ReadAll(splits[idx].Producer()).
 				Operation(func(err error) {
 					ft.WhenCall(ers.Is(err, io.EOF, ers.ErrCurrentOpAbort), wcancel)
